@@ -98,24 +98,27 @@ def run(spec, keep_tmp=False, sample=None):
         if s3f:
             seen = {}
 
-            def mkexc(tag):
-                if s3f.get('exc') == 'kbi':
+            s3_list = s3f if isinstance(s3f, list) else [s3f]
+
+            def mkexc(f, tag):
+                if f.get('exc') == 'kbi':
                     return KeyboardInterrupt()
                 return fakes3.FakeFault(tag)
 
             def fault(rec, when):
-                if 'key' in s3f:
-                    # the nth request (0-based) for that destination key
-                    if rec['kwargs'].get('Key') != s3f['key']:
-                        return None
-                    if when == 'before':
-                        seen[rec['idx']] = len(seen)
-                    n = seen.get(rec['idx'])
-                    if n == s3f['nth'] and when == s3f['when']:
-                        return mkexc(f's3:{s3f["key"]}:{n}:{when}')
-                    return None
-                if rec['idx'] == s3f['idx'] and when == s3f['when']:
-                    return mkexc(f's3:{rec["idx"]}:{when}')
+                for f in s3_list:
+                    if 'key' in f:
+                        # the nth request (0-based) for that destination key
+                        if rec['kwargs'].get('Key') != f['key']:
+                            continue
+                        if when == 'before':
+                            seen.setdefault(rec['idx'], len(seen))
+                        n = seen.get(rec['idx'])
+                        if n == f['nth'] and when == f['when']:
+                            return mkexc(f, f's3:{f["key"]}:{n}:{when}')
+                        continue
+                    if rec['idx'] == f['idx'] and when == f['when']:
+                        return mkexc(f, f's3:{rec["idx"]}:{when}')
                 return None
             client.fault = fault
         if getf:
